@@ -724,8 +724,9 @@ theorem soft_scanHandler (c : Cfg) (i : In) : Soft (fun s => (scanHandler c i s)
         { s with lastScanTs := s.lastScanTs.dropLast ++ [s.curT] }
       simpa using this
 
-theorem soft_propagatePrep : Soft propagatePrep := by
-  intro s; unfold propagatePrep propagateReset; split <;> simp
+theorem soft_propagatePrep (c : Cfg) : Soft (propagatePrep c) := by
+  intro s; unfold propagatePrep propagateReset; repeat' split
+  all_goals simp [St.raise]
 
 theorem soft_propagateFirstScan : Soft propagateFirstScan := by
   intro s; simp [propagateFirstScan]
@@ -787,7 +788,7 @@ theorem c2c_fire (c : Cfg) (i : In) (s : St) (h : s.cur = .c2) (hn : s.nxt = Sta
   · split
     · split
       · exact Or.inl ⟨h, hn⟩
-      · have := progress_spec { s with chosen := { kind := .executeC2, host := s.host } } .c2 rfl hn (Or.inl h)
+      · have := progress_spec { s with chosen := { kind := .executeC2, node := s.host } } .c2 rfl hn (Or.inl h)
         exact Or.inr (Or.inl ⟨this.1, this.2.1⟩)
     · exact Or.inl ⟨h, hn⟩
 
@@ -800,21 +801,21 @@ theorem propagate_fire (c : Cfg) (i : In) (s : St) (h : s.cur = .propagate) (hn 
     have := soft_scanHandler c i s
     simpa using this
   · split
-    · exact res_of_soft_noprogress .propagate _ s ((Soft.comp soft_propagatePrep soft_propagateFirstScan) s) h hn
+    · exact res_of_soft_noprogress .propagate _ s ((Soft.comp (soft_propagatePrep c) soft_propagateFirstScan) s) h hn
     · exact res_of_soft_noprogress .propagate _ s
         ((Soft.comp (fun s => by simp : Soft (fun s => { s with chosen := Act.nothing })) (soft_failStage c)) s) h hn
 
 theorem activate_fire (s : St) (h : s.cur = .activate) (hn : s.nxt = Stage.succ .activate) : Res .activate (activate s) := by
   unfold activate
   rw [if_neg (by simp [h])]
-  have := progress_spec { s with host := .start, prog := .finished, chosen := { kind := .installRansomware, host := .start } }
+  have := progress_spec { s with host := s.startNode, prog := .finished, chosen := { kind := .installRansomware, node := s.startNode } }
     .activate rfl hn (Or.inl h)
   exact Or.inr (Or.inl ⟨this.1, this.2.1⟩)
 
 theorem install_fire (s : St) (h : s.cur = .install) (hn : s.nxt = Stage.succ .install) : Res .install (install s) := by
   unfold install
   rw [if_neg (by simp [h])]
-  have := progress_spec { s with host := .start, chosen := { kind := .fileAccess, host := .start } } .install rfl hn (Or.inl h)
+  have := progress_spec { s with host := s.startNode, chosen := { kind := .fileAccess, node := s.startNode } } .install rfl hn (Or.inl h)
   exact Or.inr (Or.inl ⟨this.1, this.2.1⟩)
 
 theorem download_fire (s : St) (h : s.cur = .download) (hn : s.nxt = Stage.succ .download) : Res .download (download s) := by
@@ -1127,7 +1128,7 @@ theorem run_stage (c : Cfg) : ∀ (ins : List In) (s : St) (t : Int), Inv s →
 simulator responses, the stage sampled after each tick is related to the previous one by `Allowed`: it stays,
 moves to the *next* stage of the chain (PAYLOAD's next is SUCCEEDED), becomes FAILED, leaves NOT_STARTED for
 DOWNLOAD, or — only with `repeat_kill_chain` — restarts from SUCCEEDED/FAILED. -/
-theorem C19_tap1_stage_monotone (c : Cfg) (d0 : Int) (s0 : St) (ins : List In) (h0 : init c d0 = some s0) :
+theorem C19_tap1_stage_monotone (c : Cfg) (d0 : Int) (k1 k2 : Nat) (s0 : St) (ins : List In) (h0 : init c d0 k1 k2 = some s0) :
     Linked (Allowed c) s0.cur (run c s0 0 ins) ∧ ∀ s ∈ run c s0 0 ins, Inv s := by
   have hinv : Inv s0 := by
     unfold init at h0
@@ -1157,13 +1158,13 @@ theorem C19_tap1_succeeded_only_from_payload (c : Cfg) (a : Stage) (h : Allowed 
 /-- Non-vacuity: with every response successful the agent walks DOWNLOAD … PAYLOAD, SUCCEEDED and concludes. -/
 def exCfg : Cfg :=
   { startStep := 1, frequency := 1, variance := 0, repeatKillChain := false, repeatStages := true,
-    pPropagate := ⟨1, 1⟩, pC2 := ⟨1, 1⟩, pPayload := ⟨1, 1⟩, scanAttempts := 20, repeatScan := false, nAddr := 2,
+    pPropagate := ⟨1, 1⟩, pC2 := ⟨1, 1⟩, pPayload := ⟨1, 1⟩, scanAttempts := 20, repeatScan := false, addrs := ["10.0.0.0/24", "10.0.1.0/24"],
     exfiltrate := true, corrupt := true, continueOnFailedExfil := true }
 
 def exIn : In :=
   { d1 := 0, d2 := 0, u := ⟨0, 1⟩, dScan := 0, resp := { ok := true, hostsEmpty := false, containsTarget := true, hasPg := true } }
 
-example : ∃ s0, init exCfg 0 = some s0 ∧
+example : ∃ s0, init exCfg 0 0 0 = some s0 ∧
     ((run exCfg s0 0 (List.replicate 20 exIn)).map (·.cur)).eraseDups
       = [.notStarted, .download, .install, .activate, .propagate, .c2, .payload, .succeeded] ∧
     ((run exCfg s0 0 (List.replicate 20 exIn)).getLast?.map (·.concluded)) = some true := by
@@ -1378,8 +1379,8 @@ theorem run_nothing_before (c : Cfg) (lo : Int) :
 
 /-- **Nothing before the start window** (TAP001): in every run from the constructor, with the first schedule draw
 `d0 ∈ [-variance, variance]`, every action other than do-nothing happens at a timestep `≥ start_step − variance`. -/
-theorem C19_tap1_nothing_before_start (c : Cfg) (d0 : Int) (s0 : St) (ins : List In)
-    (h0 : init c d0 = some s0) (hd0 : -c.variance ≤ d0) :
+theorem C19_tap1_nothing_before_start (c : Cfg) (d0 : Int) (k1 k2 : Nat) (s0 : St) (ins : List In)
+    (h0 : init c d0 k1 k2 = some s0) (hd0 : -c.variance ≤ d0) :
     ∀ t a, (t, Out.act a) ∈ runOut c s0 0 ins → a ≠ Act.nothing → c.startStep - c.variance ≤ t := by
   have hs : s0.nextExec = c.startStep + d0 := by
     unfold init at h0
@@ -1435,8 +1436,9 @@ theorem C19_tap1_nothing_before_start (c : Cfg) (d0 : Int) (s0 : St) (ins : List
 @[simp] theorem ne_scanHandler (c : Cfg) (i : In) (s : St) : (scanHandler c i s).1.nextExec = s.nextExec := by
   unfold scanHandler; repeat' split
   all_goals simp [St.raise]
-@[simp] theorem ne_propagatePrep (s : St) : (propagatePrep s).nextExec = s.nextExec := by
-  unfold propagatePrep propagateReset; split <;> simp
+@[simp] theorem ne_propagatePrep (c : Cfg) (s : St) : (propagatePrep c s).nextExec = s.nextExec := by
+  unfold propagatePrep propagateReset; repeat' split
+  all_goals simp [St.raise]
 @[simp] theorem ne_propagateFirstScan (s : St) : (propagateFirstScan s).nextExec = s.nextExec := by
   simp [propagateFirstScan]
 @[simp] theorem ne_propagate (c : Cfg) (i : In) (s : St) : (propagate c i s).nextExec = s.nextExec := by
@@ -1497,8 +1499,13 @@ theorem C19_tap1_reschedules (c : Cfg) (s : St) (t : Int) (i : In) (h : Hist)
     exact ((setNext_next c _ (t + c.frequency) i.d2).1 hv).1
 
 /-- A negative variance makes every execution slot raise (`randint` on an empty range) — the agent never acts. -/
-theorem C19_tap1_negative_variance_raises (c : Cfg) (d0 : Int) (h : c.variance < 0) : init c d0 = none := by
-  simp [init, randintOk]; omega
+theorem C19_tap1_negative_variance_raises (c : Cfg) (d0 : Int) (k1 k2 : Nat) (h : c.variance < 0) : init c d0 k1 k2 = none := by
+  unfold init
+  rw [if_neg]
+  intro hc
+  have := hc.1
+  simp [randintOk] at this
+  omega
 
 end Tap1
 
@@ -1559,7 +1566,7 @@ theorem soft_manipAct (c : Cfg) : Soft (manipAct c) := by
   intro s; unfold manipAct; repeat' split
   all_goals simp [St.raise]
 
-theorem soft_exploitAct (r : Nat) : Soft (exploitAct r) := by
+theorem soft_exploitAct (a : Acl) (cr : Cred) (ip : Val) : Soft (exploitAct a cr ip) := by
   intro s; unfold exploitAct; split <;> simp
 
 theorem res_of_soft_noprogress (x : Stage) (s' s : St)
@@ -1587,20 +1594,21 @@ theorem exploitBody_fire (c : Cfg) (s : St) (h : s.cur = .exploit) (hn : s.nxt =
   unfold exploitBody
   split
   · exact Or.inl ⟨h, hn⟩
-  · rename_i r _
+  · rename_i a _
     split
-    · exact Or.inl ⟨h, hn⟩
-    · have hs := soft_exploitAct r { s with numAcls := c.acls.length }
-      have hc : (exploitAct r { s with numAcls := c.acls.length }).cur = .exploit := by
+    · rename_i cr ip _ _
+      have hs := soft_exploitAct a cr ip { s with numAcls := c.acls.length }
+      have hc : (exploitAct a cr ip { s with numAcls := c.acls.length }).cur = .exploit := by
         rcases hs.1 with h1 | h1
         · rw [h1]; exact h
         · unfold exploitAct at h1 ⊢; split <;> simp_all
       unfold exploitFinish
       split
-      · have := progress_spec { exploitAct r { s with numAcls := c.acls.length } with curAcl := 0 } .exploit rfl
+      · have := progress_spec { exploitAct a cr ip { s with numAcls := c.acls.length } with curAcl := 0 } .exploit rfl
           (by simp only; rw [hs.2]; exact hn) hc
         exact Or.inr (Or.inl ⟨this.1, this.2.1⟩)
       · exact Or.inl ⟨hc, by rw [hs.2]; exact hn⟩
+    · exact Or.inl ⟨h, hn⟩
 
 theorem exploitEnter_fields (s : St) :
     (exploitEnter s).cur = s.cur ∧ (exploitEnter s).nxt = s.nxt ∧ (exploitEnter s).nextExec = s.nextExec ∧
@@ -1984,7 +1992,7 @@ theorem run_stage (c : Cfg) : ∀ (ins : List In) (s : St) (t : Int), Inv s →
 simulator responses, the stage sampled after each tick is related to the previous one by `Allowed`: it stays,
 moves to the *next* stage of the chain (EXPLOIT's next is SUCCEEDED), becomes FAILED, leaves NOT_STARTED for
 RECONNAISSANCE, or — only with `repeat_kill_chain` — restarts from SUCCEEDED/FAILED. -/
-theorem C19_tap3_stage_monotone (c : Cfg) (d0 : Int) (s0 : St) (ins : List In) (h0 : init c d0 = some s0) :
+theorem C19_tap3_stage_monotone (c : Cfg) (d0 : Int) (k : Nat) (s0 : St) (ins : List In) (h0 : init c d0 k = some s0) :
     Linked (Allowed c) s0.cur (run c s0 0 ins) ∧ ∀ s ∈ run c s0 0 ins, Inv s := by
   have hinv : Inv s0 := by
     unfold init at h0
@@ -2025,13 +2033,15 @@ theorem C19_tap3_concluded_absorbing (c : Cfg) (s : St) (t : Int) (i : In) (h : 
 
 def exCfg : Cfg :=
   { startStep := 1, frequency := 1, variance := 0, repeatKillChain := true, repeatStages := true,
-    pPlanning := ⟨1, 1⟩, pAccess := ⟨1, 1⟩, pManipulation := ⟨1, 1⟩, pExploit := ⟨1, 1⟩, startNode := 0,
-    accountChanges := [0, 1], acls := [1], creds0 := [(0, false), (1, true)] }
+    pPlanning := ⟨1, 1⟩, pAccess := ⟨1, 1⟩, pManipulation := ⟨1, 1⟩, pExploit := ⟨1, 1⟩, defaultStartingNode := "pc",
+    accountChanges := [{ host := "pc", user := "a0", newPw := "n0" }, { host := "rt", user := "a1", newPw := "n1" }],
+    acls := [{ router := "rt", fields := ["DENY", "tcp", "10.0.0.0", "0.0.0.255", "ALL", "ALL", "NONE", "80", "1"] }],
+    creds0 := [("pc", { user := "u0", pw := "p0" }), ("rt", { user := "u1", pw := "p1", ip := some "10.0.9.1" })] }
 
 def exIn : In := { d1 := 0, u := ⟨0, 1⟩, resp := { ok := true } }
 
 /-- Non-vacuity: all responses successful, repeat on: the agent walks the five implemented stages, succeeds and restarts. -/
-example : ∃ s0, init exCfg 0 = some s0 ∧
+example : ∃ s0, init exCfg 0 0 = some s0 ∧
     ((run exCfg s0 0 (List.replicate 16 exIn)).map (·.cur)).eraseDups
       = [.notStarted, .reconnaissance, .planning, .access, .manipulation, .exploit, .succeeded] := by
   refine ⟨_, rfl, ?_⟩; decide
@@ -2096,8 +2106,8 @@ theorem run_nothing_before (c : Cfg) (lo : Int) :
 
 /-- **Nothing before the start window** (TAP003): in every run from the constructor, with the first schedule draw
 `d0 ∈ [-variance, variance]`, every action other than do-nothing happens at a timestep `≥ start_step − variance`. -/
-theorem C19_tap3_nothing_before_start (c : Cfg) (d0 : Int) (s0 : St) (ins : List In)
-    (h0 : init c d0 = some s0) (hd0 : -c.variance ≤ d0) :
+theorem C19_tap3_nothing_before_start (c : Cfg) (d0 : Int) (k : Nat) (s0 : St) (ins : List In)
+    (h0 : init c d0 k = some s0) (hd0 : -c.variance ≤ d0) :
     ∀ t a, (t, Out.act a) ∈ runOut c s0 0 ins → a ≠ Act.nothing → c.startStep - c.variance ≤ t := by
   have hs : s0.nextExec = c.startStep + d0 := by
     unfold init at h0
@@ -2123,7 +2133,7 @@ theorem C19_tap3_nothing_before_start (c : Cfg) (d0 : Int) (s0 : St) (ins : List
 @[simp] theorem ne_manipulation (c : Cfg) (i : In) (s : St) : (manipulation c i s).nextExec = s.nextExec := by
   unfold manipulation; repeat' split
   all_goals simp
-@[simp] theorem ne_exploitAct (r : Nat) (s : St) : (exploitAct r s).nextExec = s.nextExec := by
+@[simp] theorem ne_exploitAct (a : Acl) (cr : Cred) (ip : Val) (s : St) : (exploitAct a cr ip s).nextExec = s.nextExec := by
   unfold exploitAct; split <;> simp
 @[simp] theorem ne_exploitFinish (s : St) : (exploitFinish s).nextExec = s.nextExec := by
   unfold exploitFinish; split <;> simp
